@@ -18,7 +18,7 @@ from props import c01
 
 PROP = "C03"
 FLAVOURS = ["opt"]
-RULE = ("cases: seeded cells in phreeqc.dat (thorough also wateq4f.dat): solution of 3-8 elements at 0-90 C + any subset of {1-6 minerals with targets in [-1, 1] and amounts in {0, 1e-4 .. 1}, "
+RULE = ("cases: seeded cells in phreeqc.dat, one in five in pitzer.dat (thorough also wateq4f.dat): solution of 3-8 elements at 0-90 C + any subset of {1-6 minerals with targets in [-1, 1] and amounts in {0, 1e-4 .. 1}, "
         "restrictions dissolve_only / precipitate_only / force_equality; exchanger X explicit or equilibrated; Hfo surface with weak+strong sites, diffuse layer or no_edl; ideal (Ca,Sr)CO3 / "
         "(Ba,Sr)SO4 or non-ideal binary solid solution; REACTION}. distinct & non-trivial = distinct (mineral, present/absent, restriction) + exchanger / surface / solid-solution kinds checked")
 ASSUME = ["gases inside EQUILIBRIUM_PHASES are judged by C19 (their target is a partial pressure, SI reports the fugacity)", "rows of runs that report an error are inconclusive",
@@ -36,7 +36,8 @@ POLYMORPH = [{"Calcite", "Aragonite"}, {"Gypsum", "Anhydrite"}, {"Quartz", "Chal
 def gen_cases(ctx):
     n = ctx.params.get("cases") or (300 if ctx.tier == "quick" else 5000)
     for i in range(n):
-        yield dict(id="a%05d" % i, i=i, db="phreeqc.dat" if (ctx.tier == "quick" or i % 3) else "wateq4f.dat")
+        # one case in five under the Pitzer model (its own solver loop), thorough also wateq4f
+        yield dict(id="a%05d" % i, i=i, db="pitzer.dat" if i % 5 == 0 else ("phreeqc.dat" if (ctx.tier == "quick" or i % 3) else "wateq4f.dat"))
 
 
 def build(ctx, case, db):
@@ -66,6 +67,7 @@ def build(ctx, case, db):
             els.update(NEEDS[m])
     for e in r.sample(["Ca", "Mg", "K", "S(6)", "C(4)", "Si", "Sr", "Ba", "F", "Al", "Fe", "Mn", "P"], r.randint(1, 4)):
         els.add(e)
+    els = {e for e in els if e in db.elements or e.split("(")[0] in db.elements}      # pitzer.dat has no F, Al, P
     temp = 25 if r.random() < 0.4 else round(r.uniform(1, 90), 1)
     t = "SOLUTION 1\n temp %s\n pH %s\n pe 4\n units mmol/kgw\n" % (f(temp), f(round(r.uniform(4.5, 9.5), 2)))
     conc = {}
